@@ -365,7 +365,7 @@ Definition toy_rt : runtime := mk_runtime
   (* none_u *)
   [ (PAtom 0, Ok (PAtom 0)); (PAtom 1, Raise EValue); (PAtom 2, Raise EValue); (PAtom 4, Raise EValue);
     (PAtom 5, Raise EValue) ]
-  [] [] [] [] [] [] [] (PAtom 0) toy_all_exn.
+  [] [] [] [] [] [] [] [] (PAtom 0) toy_all_exn.
 Definition toy_lv (s : nat) (v : pv) : bool :=
   match v with
   | PAtom a => existsb (fun p => Nat.eqb s (fst p) && Nat.eqb a (snd p))
